@@ -200,6 +200,7 @@ type ProcCase struct {
 	AnsDelayMs int    `json:"ansDelayMs,omitempty"` // fake time the answerer lets pass before each answer
 	Rounds   bool     `json:"rounds,omitempty"` // answer the r-th request of every activity before any (r+1)-th
 	LogProps bool     `json:"logProps,omitempty"`
+	RealIDs  bool     `json:"realIDs,omitempty"` // use the engine's real default id generator (C20)
 	Meta     map[string]int `json:"meta,omitempty"`
 	Objs     map[string]any `json:"objs,omitempty"` // initial data objects
 
@@ -258,7 +259,10 @@ func (c *ProcCase) Main() {
 	defer cancel()
 	gen := &ctrGen{prefix: "id"}
 	engine := bpmn.NewEngine(bpmn.WithEngineContext(ctx))
-	opts := []bpmn.Option{bpmn.WithContext(ctx), bpmn.WithVariables(c.Prog.Vars), bpmn.WithIdGenerator(gen)}
+	opts := []bpmn.Option{bpmn.WithContext(ctx), bpmn.WithVariables(c.Prog.Vars)}
+	if !c.RealIDs {
+		opts = append(opts, bpmn.WithIdGenerator(gen))
+	}
 	proc, err := engine.NewProcess(c.defs, opts...)
 	if err == nil && len(c.Objs) > 0 {
 		if loc, ok := proc.Locator().FindIItemAwareLocator(data.LocatorObject); ok {
